@@ -35,7 +35,7 @@ def handle (ts : List String) : String :=
     match fault c.rest with
     | none => "bad-op"
     | some f =>
-      let r := run c.cfg c.env c.node c.input
+      let r := runOw c.cfg c.env c.node c.input
       let s := Spec.accepts c.own c.written c.input
       let m := match r with
         | .ok => "ok"
